@@ -17,6 +17,14 @@ inductive Spawn where
   | sh (cwd : String) (env : List (String × String)) (cmd : String) (args : List String)
   deriving Repr, DecidableEq
 
+/-- `ninja_run`'s reading of `ExitStatus::code()`: `some 0` is success, any other code is "ninja exited with code",
+    `none` (no exit code: the process was killed by a signal) is "ninja probably killed by signal". The rest of the model only
+    sees the verdict `0` / non-zero (`ninjaRc`). -/
+def ninjaVerdict : Option Int → Nat
+  | some 0 => 0
+  | some c => if c == 0 then 0 else c.natAbs
+  | none => 1
+
 /-- `NinjaCmd::run` argv -/
 def ninjaArgv (file : String) (verbose : Bool) (jobs keepGoing : Option Nat) (targets : Option (List String)) : List String :=
   ["-f", file] ++ (if verbose then ["-v"] else []) ++
